@@ -137,6 +137,11 @@ func (t *traversal[S, T]) visit(ctx context.Context, eg *errgroup.Group, node *v
 		return
 	}
 	eg.Go(func() error {
+		if ctx.Err() != nil {
+			// the walk was aborted while this visit was waiting for a slot of the group: the slot it got may be the
+			// one the dispatcher goroutine gave back, and running the visitor could exceed the configured maximum
+			return nil
+		}
 		var (
 			err    error
 			result T
